@@ -7,7 +7,6 @@ A class that represents a unit symbol.
 import copy
 import itertools
 import math
-from functools import lru_cache
 from numbers import Number as numeric_type
 
 import numpy as np
@@ -846,7 +845,6 @@ def _em_conversion(orig_units, conv_data, to_units=None, unit_system=None):
     return to_units, conv
 
 
-@lru_cache(maxsize=128, typed=False)
 def _check_em_conversion(unit, to_unit=None, unit_system=None, registry=None):
     """Check to see if the units contain E&M units
 
